@@ -27,7 +27,8 @@ EPOCH_ORD = date(1970, 1, 1).toordinal()
 RULE = ("cases: one-field recipes calling random_number / random_choice / date_between / datetime_between; "
         "draws injected (ends: k=0 and k=n-1 / random()=0 and 1023/1024; all: every k of a small range; raw) "
         "and compared value-for-value with the model, or free (200 rows of real randomness) checked against the "
-        "model's 'possible value' predicate.  non-trivial: a run that produced at least one value from a range "
+        "model's 'possible value' predicate; weighted choices also with weights that are formulas of the row number "
+        "(${{ }}, ${% %}, << >>; list and dict form; several rows, the zero-weight option moving between rows), compared row by row.  non-trivial: a run that produced at least one value from a range "
         "with >= 2 lattice points / >= 2 options / bounds that differ, or an error case of the property "
         "(empty range, all-zero weights); distinct by case hash")
 TRUSTED = ["harness/oracle_random.py: random.Random._randbelow patched to inject the integer draw",
@@ -129,6 +130,32 @@ def fmt_weight(q, style):
     return val
 
 
+def weight_literal(q, pct=False, quoted=False):
+    frac = {0: "", 1: ".25", 2: ".5", 3: ".75"}[abs(q) % 4]
+    val = ("-" if q < 0 else "") + str(abs(q) // 4) + frac
+    if pct:
+        val += "%"
+    return f"'{val}'" if quoted else val
+
+
+def weight_formula(case, j):
+    """Probability of item j as a formula of `id` (1-based row number), evaluated anew for each row:
+    syntax jinja `${{ }}`, block `${% if %}` or legacy `<< >>` (the latter only without snowfakery_version 3)."""
+    col = [row[j] for row in case["wrows"]]
+    syn = case["syntax"]
+    pct = case.get("pct", False)
+    if syn == "block":
+        parts = []
+        for i, q in enumerate(col):
+            kw = "if" if i == 0 else "elif"
+            parts.append(("${% else %}" if i == len(col) - 1 and i > 0 else "${% " + f"{kw} id == {i + 1}" + " %}") + weight_literal(q, pct))
+        return json.dumps("".join(parts) + "${% endif %}")
+    expr = weight_literal(col[-1], pct, quoted=pct)
+    for i in range(len(col) - 2, -1, -1):
+        expr = f"{weight_literal(col[i], pct, quoted=pct)} if id == {i + 1} else ({expr})"
+    return json.dumps("${{ " + expr + " }}" if syn == "jinja" else "<< " + expr + " >>")
+
+
 def body_lines(case):
     k = case["kind"]
     if k == "number":
@@ -144,12 +171,16 @@ def body_lines(case):
             return ["random_choice:"] + [f"  - L{lab}" for lab, _, _ in items]
         if form == "choices":
             lines = ["random_choice:"]
-            for lab, q, st in items:
+            for j, (lab, q, st) in enumerate(items):
                 lines.append("  - choice:")
-                if q is not None:
+                if "wrows" in case:
+                    lines.append(f"      probability: {weight_formula(case, j)}")
+                elif q is not None:
                     lines.append(f"      probability: {fmt_weight(q, st)}")
                 lines.append(f"      pick: L{lab}")
             return lines
+        if "wrows" in case:
+            return ["random_choice:"] + [f"  L{lab}: {weight_formula(case, j)}" for j, (lab, _, _) in enumerate(items)]
         return ["random_choice:"] + [f"  L{lab}: {fmt_weight(q, st)}" for lab, q, st in items]
     if k == "date":
         return ["date_between:", f"  start_date: {spec_yaml(case['start'])}", f"  end_date: {spec_yaml(case['end'])}"]
@@ -174,7 +205,8 @@ def inline_expr(case):
 
 def recipe(case):
     rows = case["draws"]["rows"]
-    head = f"- snowfakery_version: 3\n- object: A\n  count: {rows}\n  fields:\n"
+    version = "" if case.get("syntax") == "legacy" else "- snowfakery_version: 3\n"   # << >> needs the legacy mode
+    head = f"{version}- object: A\n  count: {rows}\n  fields:\n"
     if case["kind"] == "number" and case.get("style") == "inline":
         return head + f"    d: {inline_expr(case)}\n"
     return head + "    d:\n" + "".join(f"      {l}\n" for l in body_lines(case))
@@ -310,6 +342,15 @@ def run_impl(case):
 
 # ------------------------------------------------------------------------------------------------
 # model side
+def row_fn_coq(case, r):
+    """the function as evaluated for row r of a case whose weights are per-row formulas"""
+    labs = [lab for lab, _, _ in case["items"]]
+    ws = case["wrows"][r]
+    if case["form"] == "choices":
+        return "(FChoice (RCChoices " + C.clist(C.cpair(C.copt(q, C.cz), C.cz(lab)) for lab, q in zip(labs, ws)) + "))"
+    return "(FChoice (RCDict " + C.clist(C.cpair(C.cz(lab), C.cz(q)) for lab, q in zip(labs, ws)) + "))"
+
+
 def fn_coq(case, obs):
     k = case["kind"]
     if k == "number":
@@ -351,6 +392,18 @@ def coq_case(case, obs):
     if case["kind"] == "datetime" and any(case[b]["t"] == "now" for b in ("start", "end")) \
             and obs.get("now_us") is None:
         return None                      # the value `now` resolved to could not be observed
+    if "wrows" in case:
+        if "ok" not in obs or len(obs["ok"]) != len(case["wrows"]):
+            return None                  # every row is valid: the oracle reports an error / missing rows
+        vals = [value_coq(v) for v in obs["ok"]]
+        if any(v is None for v in vals):
+            return None
+        fns = [row_fn_coq(case, r) for r in range(len(vals))]
+        if case["draws"]["mode"] == "free":
+            return "CPerRowFree " + C.clist(C.cpair(f, v) for f, v in zip(fns, vals))
+        if len(obs["rand"]) != len(vals):
+            return f"CPerRow {DEN} [({fns[0]}, (-1), VNull)]"      # unexpected number of draws: disagreement
+        return f"CPerRow {DEN} " + C.clist(f"({f}, {C.cz(d)}, {v})" for f, d, v in zip(fns, obs["rand"], vals))
     f = fn_coq(case, obs)
     rows = case["draws"]["rows"]
     if case["draws"]["mode"] == "free":
@@ -445,6 +498,21 @@ def oracle(case, obs):
         if mode == "all" and got != set(range(mn, mx + 1, step)):
             return (f"number: random_number(min={mn}, max={mx}, step={step}): all draws of the requested width "
                     f"{obs.get('widths', [None])[:1]} give {sorted(got)}, not the whole lattice")
+        return None
+    if k == "choice" and "wrows" in case:
+        labels = [lab for lab, _, _ in case["items"]]
+        if vals is None:
+            return (f"choice: random_choice ({case['form']} form, {case['syntax']} formulas) with per-row weights "
+                    f"{case['wrows']} (quarters) over {labels} raised {obs['err']}")
+        if len(vals) != len(case["wrows"]):
+            return f"choice: {len(vals)} rows produced, {len(case['wrows'])} expected"
+        for r, (v, ws) in enumerate(zip(vals, case["wrows"])):
+            x = v[1] if v[0] == "z" else None
+            if x not in labels:
+                return f"choice: row {r + 1} returned {v}, which is not a listed option {labels}"
+            if x not in {lab for lab, w in zip(labels, ws) if w > 0}:
+                return (f"choice: row {r + 1} returned option L{x} whose weight in that row is 0 "
+                        f"({case['form']} form, {case['syntax']} formulas, per-row weights {case['wrows']} over {labels})")
         return None
     if k == "choice":
         ws = choice_weights(case)
@@ -559,6 +627,11 @@ def stats(cases, obss):
         elif k == "choice":
             ws = choice_weights(c)
             feats[f"choice:{c['form']}"] += 1
+            if "wrows" in c:
+                feats[f"choice:per-row-formula-weights:{c['syntax']}:{c['form']}"] += 1
+                if any(a[j] == 0 and b[j] > 0 or a[j] > 0 and b[j] == 0
+                       for a, b in zip(c["wrows"], c["wrows"][1:]) for j in range(len(a))):
+                    feats["choice:zero-weight-moves-between-rows"] += 1
             if any(w == 0 for w in ws):
                 feats["choice:has-zero-weight"] += 1
             if sum(1 for w in ws if w) == 1 and all(w is not None for w in ws):
@@ -701,6 +774,30 @@ def gen_choice(rng, tier):
             out.append(dict(base, draws=draws(rng, "ends")))
             out.append(dict(base, draws={"mode": "raw", "rows": 6, "raw": [rng.randint(0, DEN - 1) for _ in range(6)]}))
         out.append(dict(base, draws=draws(rng, "free", rows=60)))
+    # weights that are formulas of the row number, evaluated anew for every row: the zero-weight
+    # option moves between rows (list form and dict form; ${{ }}, ${% %} and << >> syntaxes)
+    for i in range(36 if tier == "quick" else 900):
+        form = rng.choice(["choices", "choices", "dict"])
+        syntax = ["jinja", "block", "legacy"][i % 3]
+        k = rng.choice([2, 2, 3, 4])
+        nrows = rng.choice([2, 3, 4, 6])
+        labels = rng.sample(range(1, 40), k)
+        wrows = []
+        for r in range(nrows):
+            if rng.random() < 0.7:          # single mass, rotating
+                ws = [0] * k
+                ws[(r + i) % k] = rng.choice([400, 4, 50, 1, rng.randint(1, 400)])
+            else:
+                ws = gen_weights(rng, k)
+                if sum(ws) == 0:
+                    ws[rng.randrange(k)] = 4
+            wrows.append(ws)
+        base = {"kind": "choice", "form": form, "syntax": syntax, "pct": rng.random() < 0.4, "wrows": wrows,
+                "items": [[lab, w, "num"] for lab, w in zip(labels, wrows[0])]}
+        out.append(dict(base, draws={"mode": "raw", "rows": nrows,
+                                     "raw": [rng.choice([0, DEN - 1, rng.randint(0, DEN - 1)]) for _ in range(nrows)]}))
+        if i % 2 == 0:
+            out.append(dict(base, draws={"mode": "free", "rows": nrows, "seed": rng.randint(0, 10 ** 6)}))
     # boundaries of the bisect: draws exactly at the cumulative weights
     for ws in ([4, 4], [4, 0, 4], [0, 4], [4, 0], [256, 256, 512], [1, 1023 * 4 + 3], [0, 0, 4, 0, 0]):
         items = [[i + 1, w, "num"] for i, w in enumerate(ws)]
@@ -869,7 +966,7 @@ def generate(rng, tier):
 
 def shrink(case):
     dr = case["draws"]
-    if dr["rows"] > 1 and dr["mode"] in ("raw", "free"):
+    if dr["rows"] > 1 and dr["mode"] in ("raw", "free") and "wrows" not in case:
         yield dict(case, draws=dict(dr, rows=1))
         yield dict(case, draws=dict(dr, rows=dr["rows"] // 2))
     if case["kind"] == "number":
@@ -878,7 +975,7 @@ def shrink(case):
                 yield dict(case, **{f: case[f] // 2})
         if case["step"] and case["step"] > 3:
             yield dict(case, step=case["step"] // 2)
-    if case["kind"] == "choice" and len(case["items"]) > 2:
+    if case["kind"] == "choice" and len(case["items"]) > 2 and "wrows" not in case:
         for i in range(len(case["items"])):
             yield dict(case, items=case["items"][:i] + case["items"][i + 1:])
     if case["kind"] == "datetime" and case.get("tz") is not None:
